@@ -42,3 +42,14 @@ m = dict(
 )
 json.dump(m, open(os.path.join(HERE, "MANIFEST.json"), "w"), indent=1)
 print(len(checks), "checks,", len(m["not_applicable"]), "not applicable")
+
+# human-readable companion of known_findings.json (the checks read the JSON)
+kf = json.load(open(os.path.join(HERE, "known_findings.json")))
+with open(os.path.join(HERE, "known_findings.txt"), "w") as f:
+    f.write("# generated from known_findings.json by gen_manifest.py; `fixed:` entries suppress nothing\n")
+    for k in kf["findings"]:
+        if k["status"] == "fixed":
+            f.write(k.get("line") or f"fixed: property={k['property']} {k.get('commit','')} {k['what']}")
+        else:
+            f.write(f"open: property={k['property']} key={k['key']} {k['what']}")
+        f.write("\n")
